@@ -560,6 +560,14 @@ pub fn run_script(
 }
 
 impl ScriptRun {
+    /// view of a scripted run as a plain emitted session (for the channel / decodability helpers)
+    pub fn into_emitted(self) -> Emitted {
+        let n = self.objs.len();
+        let end = self.stream.last().map(|p| p.t).unwrap_or_else(|| util::at(0));
+        Emitted { spec: self.spec, objs: self.objs, tois: self.tois, add_err: vec![None; n], transfer_len: self.transfer_len, stream: self.stream,
+            sub_events: self.sub_events, finished: true, seek_logs: self.seek_logs, end_time: end }
+    }
+
     pub fn oti_of(&self, i: usize) -> &OtiSpec {
         self.objs[i].oti.as_ref().unwrap_or(&self.spec.oti)
     }
